@@ -176,6 +176,30 @@ func r11_2(c *Ctx) {
 		c.anchor("(*Connection).doConnect")
 		return
 	}
+	// every response is validated before it is read: no path from the request to the parser avoids the validator
+	{
+		var do, val, rd *ssa.Call
+		eachInstrDeep(fn, func(in ssa.Instruction) {
+			if call, ok := isStaticCall(in, "(*net/http.Client).Do"); ok {
+				do = call
+			}
+			if call, ok := isModCall(in, "(*Connection).read"); ok {
+				rd = call
+			}
+			if call, ok := in.(*ssa.Call); ok && !call.Call.IsInvoke() && call.Call.StaticCallee() == nil {
+				if _, ok := isFieldLoad(call.Call.Value, "Client", "ResponseValidator"); ok {
+					val = call
+				}
+			}
+		})
+		if do != nil && rd != nil {
+			good := val != nil && !reachesAvoiding(afterInstr(do), rd, func(in ssa.Instruction) bool { return in == ssa.Instruction(val) }, nil) &&
+				guardedByNil(fn, rd.Block(), func(v ssa.Value) bool { return v == ssa.Value(val) }, true)
+			c.check(good, fnLabel(fn)+":validated-before-read", P.ipos(rd), "the response of every attempt passes the validator (and only an accepted one is read)",
+				"a response can reach the parser without having passed the ResponseValidator on this attempt (validated once, cached, or skipped): a reconnect answered with an error page is parsed as an event stream and retried for ever instead of ending Connect with the validation error")
+		}
+	}
+	staleCtxErr := ""
 	isErrorsIsCtx := func(v ssa.Value, subject func(ssa.Value) bool) bool {
 		call, ok := isStaticCall(v, "errors.Is")
 		if !ok {
@@ -186,11 +210,29 @@ func r11_2(c *Ctx) {
 		}
 		for _, s := range sources(call.Call.Args[0]) {
 			if subject(s) {
+				// ctx.Err() is asked after the operation whose error it classifies: a value read before the
+				// operation is nil for a cancellation that arrives while the operation runs
+				var prod ssa.Instruction
+				switch t := s.(type) {
+				case *ssa.Extract:
+					prod, _ = t.Tuple.(ssa.Instruction)
+				case ssa.Instruction:
+					prod = t
+				}
+				errCall, _ := call.Call.Args[1].(*ssa.Call)
+				if prod != nil && errCall != nil && !instrDominates(prod, errCall) {
+					staleCtxErr = P.ipos(errCall)
+					continue
+				}
 				return true
 			}
 		}
 		return false
 	}
+	defer func() {
+		c.check(staleCtxErr == "", fnLabel(fn)+":ctx-err-read-after-operation", P.pos(fn.Pos()), "ctx.Err() is read after the operation whose error it is compared with",
+			"the context error compared with an operation's error is read (at "+staleCtxErr+") before that operation ran: a cancellation during the operation is compared with a stale nil, so Connect wraps context.Canceled in a *ConnectionError and retries")
+	}()
 	kinds := map[string]bool{}
 	defer func() {
 		c.check(kinds["reset"], fnLabel(fn)+":reset-failure-returns", P.pos(fn.Pos()), "a failed request reset is returned (without retry)", "doConnect has no return for a failed request reset: Connect does not end when the body cannot be re-obtained")
